@@ -203,18 +203,27 @@ def joinOnOutput (cfg : JCfg) (arr : List OnArrival) : List JOut :=
       | none => none)
     joinedPoint cfg { time := t, values := values })
 
-/-- The domain on which the `on()` clause is claimed: two parents, each consistently specific or general, at
-most one general point per general group and rounded time, and per parent and general group the rounded
-times never go back. -/
+/-- The domain on which the `on()` clause is claimed: two parents, every arrival from one of them, each parent
+consistently specific or general and at most one of them specific, specific points of one group have one general
+group (the general group is a function of the group), at most one general point per general group and rounded
+time, and per parent and general group the rounded times never go back. (The conjuncts "parent index in range",
+"at most one specific parent" and "one general group per group" were added when the proof attempt showed the
+clause false without them: `Kap.Props.C12.on_both_parents_specific_join_each_other`,
+`Kap.Props.C12.on_group_with_two_general_groups_mispairs`; they hold for every real on() join: the general group
+is computed from the point's own tags.) -/
 def onDomain (cfg : JCfg) (arr : List OnArrival) : Prop :=
   cfg.parents = 2 ∧
+  (∀ a ∈ arr, a.src < cfg.parents) ∧
   (∀ a ∈ arr, ∀ b ∈ arr, a.src = b.src → a.specific = b.specific) ∧
+  (∀ a ∈ arr, ∀ b ∈ arr, a.specific = true → b.specific = true → a.src = b.src) ∧
+  (∀ a ∈ arr, ∀ b ∈ arr, a.specific = true → b.specific = true → a.msg.grp = b.msg.grp → a.general = b.general) ∧
   ((arr.filter (fun a => !a.specific)).map (fun a => (a.general, goRound cfg.tol a.msg.time))).Nodup ∧
   (∀ i, i < cfg.parents → ∀ g ∈ distinct (arr.map (·.general)),
     nondecreasing ((arr.filter (fun a => a.src == i && a.general == g)).map (fun a => goRound cfg.tol a.msg.time)))
 instance (cfg : JCfg) (arr : List OnArrival) : Decidable (onDomain cfg arr) := by
   unfold onDomain
-  exact @instDecidableAnd _ _ inferInstance (@instDecidableAnd _ _ inferInstance (@instDecidableAnd _ _ inferInstance (Nat.decidableBallLT _ _)))
+  exact @instDecidableAnd _ _ inferInstance (@instDecidableAnd _ _ inferInstance (@instDecidableAnd _ _ inferInstance
+    (@instDecidableAnd _ _ inferInstance (@instDecidableAnd _ _ inferInstance (@instDecidableAnd _ _ inferInstance (Nat.decidableBallLT _ _))))))
 
 /-- Hypothesis of the join clauses: within every group, every parent's (rounded) times never go back.
 `steps` lists what each parent sent in arrival order: (parent, group, time) of points AND barriers. -/
